@@ -28,7 +28,7 @@ func init() {
 			return 48
 		},
 		Run:     run,
-		Require: []string{"queries_nontrivial", "queries_with_dir_filter", "queries_lowmem"},
+		Require: []string{"queries_nontrivial", "queries_with_dir_filter", "queries_lowmem", "encoder_switches_within_a_day"},
 		// the only check that draws IPv6 addresses with 12 trailing zero bytes (see gen/tz6.go)
 		Env: func(tier, variant string) []string { return []string{"VERIF_GEN_TZ6=1"} },
 	})
@@ -274,7 +274,16 @@ func run(c *fw.Case) {
 	db := gen.RandRefDB(r, DBOptsFor(r))
 	dbPath := c.Tmp + "/db"
 	enc := []encoders.Type{encoders.EncoderTypeLZ4, encoders.EncoderTypeLZ4, encoders.EncoderTypeZSTD, encoders.EncoderTypeNull}[r.Intn(4)]
-	if err := db.Write(dbPath, enc, 0); err != nil {
+	if c.Idx%4 == 3 {
+		// every 4th database changes its compression setting between write-outs
+		sw, err := db.WriteMixed(dbPath, r)
+		if err != nil {
+			c.Violatef("write_error", "writing generated DB (mixed encoders) failed: %v", err)
+			return
+		}
+		c.Count("dbs_mixed_encoders", 1)
+		c.Count("encoder_switches_within_a_day", sw)
+	} else if err := db.Write(dbPath, enc, 0); err != nil {
 		c.Violatef("write_error", "writing generated DB failed: %v", err)
 		return
 	}
